@@ -624,18 +624,23 @@ class BzrUploader:
                     # deletions are differed.
                     self.upload_file(change.path[0], change.path[1])
                 self.rename_remote(change.path[0], change.path[1])
-            self.finish_renames()
+            # The deferred directories are empty once their content has been
+            # deleted or staged away; remove them before the staged entries
+            # take their final names, one of which may be such a directory's.
             self.finish_deletions()
+            self.finish_renames()
 
             for change in changes.kind_changed:
                 if self.is_ignored(change.path[1]):
                     if not self.quiet:
                         self.outf.write(f"Ignoring {change.path[1]}\n")
                     continue
+                # Renames are done: the entry is at its new path (which differs
+                # from the old one when a parent directory was renamed).
                 if change.kind[0] in ("file", "symlink"):
-                    self.delete_remote_file(change.path[0])
+                    self.delete_remote_file(change.path[1])
                 elif change.kind[0] == "directory":
-                    self.delete_remote_dir(change.path[0])
+                    self.delete_remote_dir(change.path[1])
                 else:
                     raise NotImplementedError
 
